@@ -39,18 +39,27 @@ Definition num_same_value (a b : bytes) : bool :=
   | _, _ => false
   end.
 
-(* ---------- same value: member order ignored, numbers by exact decimal value ---------- *)
-Fixpoint json_same (a b : json) {struct a} : bool :=
+(* integers by value, other literals by their text: the part of "same value" for which Matrix
+   canonical JSON fixes one spelling *)
+Definition num_same_matrix (a b : bytes) : bool :=
+  match num_int a, num_int b with
+  | Some x, Some y => (x =? y)%Z
+  | None, None => bytes_eqb a b
+  | _, _ => false
+  end.
+
+(* ---------- same value: member order ignored; numbers compared by [numeq] ---------- *)
+Fixpoint json_same_with (numeq : bytes -> bytes -> bool) (a b : json) {struct a} : bool :=
   match a, b with
   | JNull, JNull => true
   | JBool x, JBool y => Bool.eqb x y
-  | JNum x, JNum y => num_same_value x y
+  | JNum x, JNum y => numeq x y
   | JStr x, JStr y => bytes_eqb x y
   | JArr x, JArr y =>
       (fix go (x y : list json) : bool :=
          match x, y with
          | [], [] => true
-         | u :: x', v :: y' => json_same u v && go x' y'
+         | u :: x', v :: y' => json_same_with numeq u v && go x' y'
          | _, _ => false
          end) x y
   | JObj x, JObj y =>
@@ -60,12 +69,17 @@ Fixpoint json_same (a b : json) {struct a} : bool :=
          | [] => true
          | (k, u) :: x' =>
              match assoc_first k y with
-             | Some v => json_same u v
+             | Some v => json_same_with numeq u v
              | None => false
              end && go x'
          end) x
   | _, _ => false
   end.
+
+(* numbers by exact decimal value *)
+Definition json_same : json -> json -> bool := json_same_with num_same_value.
+(* integers by value, non-integer literals by text *)
+Definition json_same_matrix : json -> json -> bool := json_same_with num_same_matrix.
 
 Fixpoint keys_nodup (l : list bytes) : bool :=
   match l with [] => true | k :: l' => negb (mem_bytes k l') && keys_nodup l' end.
